@@ -235,8 +235,14 @@ func c14Serve(c *Ctx, fn *ssa.Function, decPkg, short string) {
 		r.Violation("C14-K4", key("read buffer provenance"), c.P.ipos(read), "buffer passed to ReadFrom is not a fresh allocation ("+bufSx.String()+"): handlers running concurrently would see later datagrams")
 	} else {
 		mi := mk.(ssa.Instruction)
-		r.Check(loop[mi.Block()], "C14-K4", key("read buffer allocated inside loop"), c.P.ipos(mi), "allocation block is on the loop cycle",
-			"the read buffer is allocated once outside the loop and reused while handlers still run")
+		if !loop[mi.Block()] {
+			why := hoistedBufferSafe(c, read, dec, mi)
+			r.Check(why == "", "C14-K4", key("read buffer allocated inside loop, or shared by nothing that outlives the iteration"), c.P.ipos(mi), "E3: the decoder keeps no memory of its input; the buffer is only read into, decoded from, measured and copied from",
+				"the read buffer is allocated once outside the loop and reused while handlers still run, and "+why)
+		} else {
+			r.Check(loop[mi.Block()], "C14-K4", key("read buffer allocated inside loop"), c.P.ipos(mi), "allocation block is on the loop cycle",
+				"the read buffer is allocated once outside the loop and reused while handlers still run")
+		}
 	}
 	n := extractOf(read, 0)
 	decArg := sx.Of(dec.Call.Args[0]).String()
